@@ -1821,11 +1821,14 @@ pub fn verify_compatiblity<T: AbiExportable + ?Sized>(path: &str) -> Result<(), 
         let def = T::get_definition(version);
         let schema_file_name = Path::join(Path::new(path), format!("savefile_{}_{}.schema", def.name, version));
         if std::fs::metadata(&schema_file_name).is_ok() {
-            let previous_schema = load_file_noschema(&schema_file_name, 1)?;
+            // Note, files written by older versions of savefile-abi have version 1 or lower.
+            let previous_schema = load_file_noschema(&schema_file_name, CURRENT_SAVEFILE_LIB_VERSION as u32)?;
 
             def.verify_backward_compatible(version, &previous_schema, false)?;
         } else {
-            save_file_noschema(&schema_file_name, 1, &def)?;
+            // The version number here selects the format of the trait definition itself.
+            // Version 2 is needed to record the receiver type, and if the method is async.
+            save_file_noschema(&schema_file_name, CURRENT_SAVEFILE_LIB_VERSION as u32, &def)?;
         }
     }
     Ok(())
